@@ -53,6 +53,42 @@ func (p *Sweep1) Pick(s *vos.Sched, r []*vos.Proc) *vos.Proc {
 	return a
 }
 
+// Sweep1After: process First runs to completion before anything else (it makes the
+// pre-opened handles of the others stale); then like Sweep1.
+type Sweep1After struct {
+	First  int
+	A, K   int
+	Paused bool
+}
+
+func (p *Sweep1After) Name() string {
+	return fmt.Sprintf("p%d first, then sweep1(A=p%d,k=%d)", p.First, p.A, p.K)
+}
+func (p *Sweep1After) Pick(s *vos.Sched, r []*vos.Proc) *vos.Proc {
+	var a *vos.Proc
+	var others []*vos.Proc
+	for _, x := range r {
+		switch x.ID {
+		case p.First:
+			return x
+		case p.A:
+			a = x
+		default:
+			others = append(others, x)
+		}
+	}
+	if a != nil && a.NOps() < p.K-1 {
+		return a
+	}
+	if len(others) > 0 {
+		if a != nil {
+			p.Paused = true
+		}
+		return others[0]
+	}
+	return a
+}
+
 // Sweep2: A paused before op KA, then B paused before op KB, then the rest, then B, then A.
 type Sweep2 struct {
 	A, KA, B, KB int
